@@ -51,6 +51,22 @@ theorem C19_none_on_failure (cfg : Cfg) (ls : List Label) (s : St) (h : run cfg 
   · exact hnc hc
   · exact hnr r hraise
 
+/-- **Once the race is over, at most one socket created during it is open** — whichever way it ended (return or any
+    exception) and whatever the schedule was: two open sockets `j`, `k` after the end are the same socket, and an open one
+    exists only when it is the value returned. -/
+theorem C19_at_most_one_open_after_end (cfg : Cfg) (ls : List Label) (s : St) (h : run cfg St.init ls = some s)
+    (hf : s.fin ≠ none) (j k : Nat) (hj : (s.ch j).sock = .opened) (hk : (s.ch k).sock = .opened) :
+    j = k ∧ s.fin = some (.ret j) := by
+  cases hfin : s.fin with
+  | none => exact absurd hfin hf
+  | some f =>
+    cases f with
+    | ret w =>
+      have h1 := (C19_one_returned cfg ls s h w hfin j).mp hj
+      have h2 := (C19_one_returned cfg ls s h w hfin k).mp hk
+      subst h1; subst h2; exact ⟨rfl, rfl⟩
+    | raised r => exact absurd hj (C19_none_on_failure cfg ls s h r hfin j)
+
 /-- non-vacuity: three addresses (IPv4 ok, IPv6 ok, IPv4 refused), finite stagger delay.  The loop walks them
     as IPv6, IPv4 (refused), IPv4: all three attempts overlap, both successes arrive, the second one closes
     its own socket, the third attempt is cancelled; the schedule is accepted and returns child 2. -/
